@@ -23,6 +23,9 @@ TSAN_SRCS ?=
 # MUT_SRCS = repo sources to recompile against the shadow and link in front of the archives
 SHADOW ?=
 MUT_SRCS ?=
+# AUX_TSAN := aux/file.cpp builds a second binary $(OUT)/aux_tsan from that source + TSAN_SRCS with the REAL
+# ThreadSanitizer runtime (free-running auxiliary race pass; no scheduler, no ABI shim)
+AUX_TSAN ?=
 -include $(SRC)/build.mk
 
 CXX := g++
@@ -66,7 +69,8 @@ SCHEDOBJS += $(BUILD)/vx/crashrec.o
 endif
 TSANOBJS := $(patsubst %.cpp,$(OUT)/tsan/%.o,$(TSAN_SRCS))
 
-all: $(OUT)/harness
+AUXBIN := $(if $(AUX_TSAN),$(OUT)/aux_tsan)
+all: $(OUT)/harness $(AUXBIN)
 kits: $(KITOBJS) $(SCHEDOBJS)
 
 $(OUT)/%.o: $(SRC)/%.cpp
@@ -99,5 +103,13 @@ $(OUT)/mut/%.o: $$(call srcof,$$*.cpp)
 $(OUT)/harness: $(OBJS) $(TSANOBJS) $(MUTOBJS) $(KITOBJS) $(SCHEDOBJS) $(LIBS)
 	$(CXX) -pthread -o $@ $(OBJS) $(TSANOBJS) $(filter-out $(patsubst $(OUT)/tsan/%,$(OUT)/mut/%,$(TSANOBJS)),$(MUTOBJS)) $(KITOBJS) $(SCHEDOBJS) $(LIBS) $(SYSLIBS) $(LDEXTRA)
 
+$(OUT)/aux_tsan.o: $(SRC)/$(AUX_TSAN)
+	@mkdir -p $(OUT)
+	$(CXX) $(REPOCXXFLAGS) -g1 -fsanitize=thread -MMD -MP -c $< -o $@
+
+$(OUT)/aux_tsan: $(OUT)/aux_tsan.o $(TSANOBJS) $(KITDIR)/glue.o $(LIBS)
+	$(CXX) -pthread -fsanitize=thread -o $@ $(OUT)/aux_tsan.o $(TSANOBJS) $(KITDIR)/glue.o $(LIBS) $(SYSLIBS)
+
+-include $(OUT)/aux_tsan.d
 -include $(OBJS:.o=.d) $(KITOBJS:.o=.d) $(TSANOBJS:.o=.d) $(SCHEDOBJS:.o=.d)
 .PHONY: all kits
